@@ -62,6 +62,8 @@ type Encoder struct {
 	topFrame    *frame
 	closedWorld map[string]bool
 	symMemo     map[*Term]map[*Term]bool
+	cbc         map[*Term]*cbcGhost
+	randDraws   int
 	initMode    bool
 	initAllocN  int
 	seeded      bool
@@ -106,6 +108,7 @@ func (e *Encoder) oblige(kind, anchor, desc string, goal *Term, pos token.Pos) *
 	if goal.IsTrue() {
 		// trivially discharged by the simplifier: still count it
 	}
+	e.closeAxioms(goal)
 	base := e.fnLabel() + ":" + kind + ":" + anchor
 	n := e.idCount[base]
 	e.idCount[base] = n + 1
